@@ -93,6 +93,24 @@ class _Dom(Domain):
         return super().on_event(st, ev)
 
 
+def _in_keyerror_try(program, tr, e):
+    """Is the node of this event inside a try whose handlers catch KeyError?"""
+    funcs = {x.frame_func for x in tr if x.frame_func is not None}
+    for f in funcs:
+        for t in ast.walk(f.node):
+            if isinstance(t, ast.Try) and any(
+                    e.node is x for s in t.body for x in ast.walk(s)):
+                for h in t.handlers:
+                    names = [h.type] if not isinstance(
+                        h.type, ast.Tuple) else h.type.elts
+                    if h.type is None or any(
+                            (dotted(n) or '').split('.')[-1] in (
+                                'KeyError', 'LookupError', 'Exception',
+                                'BaseException') for n in names):
+                        return True
+    return False
+
+
 def _row_delete_key(e):
     """Entity text if the event deletes a whole row of _entities."""
     if e.kind == 'del':
@@ -344,6 +362,7 @@ def run(program, rep, tier):
     snapshot_draw = False
     unguarded = None
     stuck = None
+    counted = blind_pop = None
     n_exc = 0
     n_rows = 0
     for ex in exits:
@@ -351,8 +370,23 @@ def run(program, rep, tier):
         removed_ids = set()
         swapped = False
         current = []            # ids whose teardown has begun
+        nonempty = False        # pending set known non-empty since the last
+        #                         call-out
         for i, e in enumerate(tr):
             op = _dead_op(e)
+            if e.kind == 'cond' and e.sym is not None and e.extra is True \
+                    and e.sym.text in (DEAD, f'len({DEAD})',
+                                       f'len({DEAD}) > 0',
+                                       f'len({DEAD}) != 0',
+                                       f'len({DEAD}) >= 1'):
+                nonempty = True
+            if e.kind == 'call' and dom.may_raise(None, e):
+                nonempty = False
+            if e.kind == 'for' and f'len({DEAD})' in e.sym.text:
+                counted = counted or e
+            if op and op[0] == 'pop' and not nonempty and blind_pop is None \
+                    and not _in_keyerror_try(program, tr, e):
+                blind_pop = e
             if op:
                 if op[0] == 'pop':
                     removed_ids.add(f'{DEAD}.pop()')
@@ -427,6 +461,19 @@ def run(program, rep, tier):
     else:
         rep.ok('C05.progress', site(app), f'{applier_name}: drawing of ids',
                'the pending set is not iterated live')
+    if counted is not None or blind_pop is not None:
+        e_ = counted or blind_pop
+        rep.bad('C05.progress', site(app),
+                e_.node.iter if counted is not None else e_.node,
+                'an id is drawn from the pending set without a test, fresh '
+                'with respect to the callbacks of the previous teardown, that '
+                'the set is not empty' + (
+                    ' (the number of draws is fixed from its size at the '
+                    'start of the sweep)' if counted is not None else '') +
+                ': a callback that deletes another pending entity at once '
+                'shrinks the set, pop() raises KeyError and process() fails '
+                'although every deleted entity existed when it was deleted',
+                line=getattr(e_.node, 'lineno', None))
     if stuck is not None:
         rep.bad('C05.progress', site(app), stuck[0].node,
                 'a call-out of the teardown can raise while the id being torn '
@@ -485,6 +532,10 @@ def run(program, rep, tier):
         todo += [c for c in _self_calls(meths[n]) if c.startswith('_')
                  and not c.startswith('__')]
     c01.analyse_writers(program, rep, only=tear, prefix='C05')
+    # ---- a pending entity keeps its components queryable: attaching a
+    # component to it keeps row and type index paired (the row is not replaced)
+    c01.analyse_writers(program, rep, only={'add_component'}, prefix='C05',
+                        label='pending')
 
     # ---- queries answer from the tables: a remembered answer survives the
     # deferred deletion unless every table mutator forgets it (C06.memo) ------
